@@ -157,6 +157,31 @@ Fixpoint trunc_checks (e : env) (s : sschema) (own : bool) (input : bytes) (i : 
       trunc_checks e s own input (S i) r
   end.
 
+(* no two keys of a map become equal by what Write does to them (enum keys are truncated to 32 bits): only then
+   does the value after a round trip not depend on Go's map iteration order, and only then do the oracles
+   "the bytes decode to the value" compare with norm (which follows the order of the model value) *)
+Fixpoint nocoll (e : env) (t : ty) (v : value) {struct v} : bool :=
+  match v with
+  | VList l => match t with TList et | TSet et => forallb (nocoll e et) l | _ => true end
+  | VMap kvs =>
+      match t with
+      | TMap kt vt =>
+          negb (has_dup go_key_eq (map (fun kv => norm e kt (fst kv)) kvs)) &&
+          forallb (fun kv => nocoll e kt (fst kv) && nocoll e vt (snd kv)) kvs
+      | _ => true end
+  | VStruct fs =>
+      match t with
+      | TRef n =>
+          match find_struct e n with
+          | Some s => forallb (fun p => match find_field (fst p) (s_fields s) with
+                                        | Some f => nocoll e (f_ty f) (snd p)
+                                        | None => true end) fs
+          | None => true end
+      | _ => true end
+  | VSome x => nocoll e t x
+  | _ => true
+  end.
+
 Definition check (e : env) (c : case) : list N :=
   match c with
   | CWrite sname v oblen oapp app_panic fw_n fw_bytes fw_panic rs_err rs_dump rf_err rf_off rf_dump =>
@@ -179,7 +204,7 @@ Definition check (e : env) (c : case) : list N :=
                            | Some (a, []), Some (b, []) => if weq_mod true a b then [] else [11%N]
                            | _, _ => [11%N] end
               end)) ++
-          (if wt e s v then
+          (if wt e s v && nocoll e (TRef (s_name s)) v then
              (match dec_struct oapp with
               | Some (WStruct wfs, []) =>
                   match read_new e s (WStruct wfs) with
